@@ -69,6 +69,8 @@ def emit_key_event(cfg, e, sid=None):
     sid = sid or sub_ids(cfg)
     if e["t"] == "k":
         return "(EKey %d %d %s%%Z)" % (sid.get(e["sub"], 0), e["code"], cZ(e["val"]))   # (unknown sub-handler names occur only on pacing markers, value 2)
+    if e["t"] == "o":
+        return "ESyn"       # an event of a type the device does not interpret (EV_MSC, EV_REL, EV_LED ...): the model's ignored event
     raise ValueError(e)
 
 
@@ -160,7 +162,18 @@ def all_codes(cfg):
     return cs
 
 
-def gen_history(rng, cfg, n, p_action=0.3, avoid_exit=True, repeats=True, max_down=6, action_discipline=False):
+OTHER_TYPES = [2, 4, 4, 5, 0x11, 0x11, 0x12, 0x14, 0x15, 0x17, 0x1f]     # EV_REL, EV_MSC (precedes every key press on a real keyboard), EV_SW, EV_LED, EV_SND, EV_REP, EV_FF, EV_FF_STATUS, EV_MAX
+
+
+def other_event(rng, cfg, code=None):
+    """an event of a type the device must not interpret, with the CODE of one of the configuration's keys (note, action or exit-sequence key)
+    and a value that would mean press / release / repeat if it were a key event"""
+    if code is None:
+        sub, code = rng.choice(all_codes(cfg))
+    return {"t": "o", "ty": rng.choice(OTHER_TYPES), "sub": "", "code": code, "val": rng.choice([1, 1, 0, 0, 2, -3, 458756])}
+
+
+def gen_history(rng, cfg, n, p_action=0.3, avoid_exit=True, repeats=True, max_down=6, action_discipline=False, others=True):
     """Alternating key history (per code). avoid_exit: never complete the exit sequence."""
     codes = all_codes(cfg)
     action_codes = {a["code"]: a["action"] for a in cfg["actions"]}
@@ -173,6 +186,9 @@ def gen_history(rng, cfg, n, p_action=0.3, avoid_exit=True, repeats=True, max_do
         r = rng.random()
         if repeats and r < 0.03:
             h.append({"t": "k", "sub": "", "code": rng.choice(codes)[1], "val": 2})
+            continue
+        if others and 0.03 <= r < 0.07:
+            h.append(other_event(rng, cfg))
             continue
         release = down and (rng.random() < 0.45 or len(down) >= max_down)
         if release:
